@@ -150,6 +150,8 @@ func (pr parsedResp) canon() string {
 	return sxl(ps)
 }
 
+var pfRespCount int
+
 func emitPfResp(o *Out, form string, names []pfName, avail []pfAvail) {
 	var availSx, namesSx []string
 	for _, a := range avail {
@@ -199,6 +201,21 @@ func emitPfResp(o *Out, form string, names []pfName, avail []pfAvail) {
 				xn = append(xn, xml.Name{Space: n.space, Local: n.local})
 			}
 			pf = internal.NewPropNamePropFind(xn...)
+			pfRespCount++
+			if pfRespCount%2 == 0 {
+				// the same request as a client may write it: the named elements are not empty (text, an attribute, a child);
+				// what is INSIDE a requested element is not part of the request, and a missing property is reported empty
+				var b strings.Builder
+				b.WriteString(`<propfind xmlns="DAV:"><prop>`)
+				for i, n := range names {
+					fmt.Fprintf(&b, `<p%d:%s xmlns:p%d="%s" lang="en">draft<p%d:shade level="3"/></p%d:%s>`, i, n.local, i, xmlEscape(n.space), i, i, n.local)
+				}
+				b.WriteString(`</prop></propfind>`)
+				var dec internal.PropFind
+				if err := xml.Unmarshal([]byte(b.String()), &dec); err == nil && dec.Prop != nil {
+					pf = &dec
+				}
+			}
 		}
 		resp, err := internal.NewPropFindResponse("/res", pf, props)
 		if err != nil {
@@ -592,6 +609,9 @@ func famPfScope(o *Out, r *RNG, thorough bool) {
 		for _, depth := range []string{"", "0", "1"} {
 			for _, form := range []string{"allprop", "prop", "noform", "propname", "empty", "emptyx"} {
 				emitScope(o, "principal", h, "principal", h.principal, depth, form)
+				// the helper answers for the URL it is called for, whichever that is
+				emitScope(o, "principal", h, "principal", strings.TrimSuffix(h.principal, "/"), depth, form)
+				emitScope(o, "principal", h, "principal", prefix+"/someone else/", depth, form)
 			}
 		}
 	}
